@@ -98,6 +98,8 @@ pub struct Writer {
     pub sites: Vec<Site>,
     cur_fn: Option<String>,
     at_line_start: bool,
+    pending_mark: bool,
+    last_mark: usize,
 }
 
 const NOISE_COMMENTS: &[&str] = &["/* c */", "/* ünï ✓ */", "/**/", "/* * / */"];
@@ -115,6 +117,8 @@ impl Writer {
             sites: vec![],
             cur_fn: None,
             at_line_start: true,
+            pending_mark: false,
+            last_mark: 0,
         }
     }
     fn rnd(&mut self, n: u64) -> u64 {
@@ -198,11 +202,19 @@ impl Writer {
     /// token preceded by an optional (pretty: yes) space
     pub fn t(&mut self, s: &str) {
         self.sep(true);
+        if self.pending_mark {
+            self.pending_mark = false;
+            self.last_mark = self.out.len();
+        }
         self.out.push_str(s);
     }
     /// token glued to the previous one in canonical layout
     pub fn g(&mut self, s: &str) {
         self.sep(false);
+        if self.pending_mark {
+            self.pending_mark = false;
+            self.last_mark = self.out.len();
+        }
         self.out.push_str(s);
     }
     /// the next token must be separated by whitespace/comment
@@ -482,9 +494,7 @@ impl Writer {
                 self.t("}");
             }
             Expr::Call(name, args) => {
-                self.sep(true);
-                self.at_line_start = true;
-                let start = self.out.len();
+                self.pending_mark = true;
                 let kind = match name {
                     CallName::Jet(_) => Some(SiteKind::Jet),
                     CallName::UnwrapLeft(_) => Some(SiteKind::UnwrapLeft),
@@ -541,6 +551,7 @@ impl Writer {
                         self.g(">");
                     }
                 }
+                let start = self.last_mark;
                 self.g("(");
                 let arg_start = self.out.len();
                 for (i, a) in args.iter().enumerate() {
@@ -552,9 +563,10 @@ impl Writer {
                     }
                     self.expr(a, None);
                 }
-                let arg_end = self.out.len();
                 self.g(")");
                 let end = self.out.len();
+                // everything between the parentheses, including comments before `)`
+                let arg_end = end - 1;
                 if let Some(kind) = kind {
                     let arg = if kind == SiteKind::Dbg { Some((arg_start, arg_end)) } else { None };
                     self.sites.push(Site {
